@@ -2,7 +2,7 @@
    Model: reduce_step / reduce_steps / get_summary and their wiring in model/Pipeline.v
    (ReduceStepsMetadata, GetSummaryLink, InTotoVerify). [agrees ref e] says: e is a link whose
    materials and products equal those of ref as finite maps (reflect.DeepEqual). *)
-From IT Require Import model.Pipeline proofs.PipelineProofs.
+From IT Require Import model.Pipeline proofs.PipelineProofs proofs.PipelineSummary.
 
 Section C05.
   Context (World : Type) (vsig : env -> key -> bool) (expiry_ok : str -> bool)
@@ -97,6 +97,20 @@ Section C05.
     destruct (C05_summary_spec _ _ _ _ _ Hsum) as [_ [Hsig Hw]].
     split; [|exact Hsig]. rewrite Hw. destruct (e_wrapper layout_env); reflexivity.
   Qed.
+  (* the endpoints reported by the summary are the artifacts of the very links the step rules were evaluated on:
+     materials of the rule-checked link of the first step, products of the rule-checked link of the last one *)
+  Theorem C05_summary_endpoints_rule_checked :
+    forall fuel w path d layout_env keys step_name params inter s w' tr,
+      verify (S fuel) w path d layout_env keys step_name params inter = (Ok s, w', tr) ->
+      exists layout rl,
+        verify_rules (map step_item (l_steps layout)) rl = Ok tt /\
+        match l_steps layout with
+        | [] => e_payload s = PLink empty_link
+        | s0 :: _ => exists f t,
+            alookup rl (s_name s0) = Some f /\ alookup rl (s_name (last (l_steps layout) s0)) = Some t /\
+            e_payload s = PLink (mkLink (ln_type f) step_name (ln_materials f) (ln_products t) (ln_byproducts t) (ln_command t) [])
+        end.
+  Proof. exact (summary_endpoints_rule_checked World vsig expiry_ok subst certs_ok load_all verify_thresholds verify_rules run_insp retval_zero pbytes zero_key). Qed.
 End C05.
 
 Print Assumptions C05_reduce_ok_iff_all_equal.
@@ -106,6 +120,7 @@ Print Assumptions C05_rules_on_agreed_artifacts.
 Print Assumptions C05_summary_spec.
 Print Assumptions C05_summary_of_accepting_run.
 Print Assumptions C05_summary_wrapper_of_accepting_run.
+Print Assumptions C05_summary_endpoints_rule_checked.
 
 (* non-vacuity: two agreeing links (different by-products) reduce; a third one differing in one digest does not *)
 Example C05_example :
@@ -154,3 +169,23 @@ Proof.
   exists st, k, e, e'. auto 10.
 Qed.
 Print Assumptions C05_rules_link_is_authorised.
+
+(* ... and the same for the summary: with the component models plugged in, the link that supplies the summary's
+   materials (first step) and the one that supplies its products (last step) are entries of the rule-checked map,
+   each of which stems from a counted, authorised link (previous theorem) *)
+Theorem C05_summary_endpoints_authorised :
+  forall now truths tc tcc pems cmds fuel w path d layout_env keys step_name params inter s w' tr,
+    verify_inst now truths tc tcc pems cmds (S fuel) w path d layout_env keys step_name params inter = (Ok s, w', tr) ->
+    exists layout rl,
+      verify_artifacts_go (map step_item (l_steps layout)) rl = Ok tt /\
+      match l_steps layout with
+      | [] => e_payload s = PLink empty_link
+      | s0 :: _ => exists f t,
+          alookup rl (s_name s0) = Some f /\ alookup rl (s_name (last (l_steps layout) s0)) = Some t /\
+          e_payload s = PLink (mkLink (ln_type f) step_name (ln_materials f) (ln_products t) (ln_byproducts t) (ln_command t) [])
+      end.
+Proof.
+  intros now truths tc tcc pems cmds fuel w path d layout_env keys step_name params inter s w' tr H.
+  unfold verify_inst in H. exact (summary_endpoints_rule_checked _ _ _ _ _ _ _ _ _ _ _ _ _ _ _ _ _ _ _ _ _ _ _ _ H).
+Qed.
+Print Assumptions C05_summary_endpoints_authorised.
